@@ -72,6 +72,13 @@ HARD_TEXT_SAFE = "abcXYZ019 .,-_!?()[]{}:;#@$%^*+=|/~'<>"
 
 
 def _uniq_name(draw, pool, used, label):
+    outer = getattr(used, "outer", None)
+    if outer and draw(st.integers(0, 3)) == 0:
+        free = sorted(n for n in outer if n not in used)
+        if free:
+            name = draw(st.sampled_from(free))
+            used.add(name)
+            return name
     base = draw(st.sampled_from(pool))
     name = base
     k = 2
@@ -80,6 +87,14 @@ def _uniq_name(draw, pool, used, label):
         k += 1
     used.add(name)
     return name
+
+
+class _Names(set):
+    """Names used in one body scope; `outer` = names of the enclosing body (a case body may reuse them)."""
+
+    def __init__(self, outer=None):
+        super().__init__()
+        self.outer = set(outer or ())
 
 
 class _Gen:
@@ -139,7 +154,8 @@ class _Gen:
             while True:
                 sn = spec.pascal_to_snake(cand)
                 bad = (cand in self.type_names or cand in BAD_TYPE_NAMES or keyword.iskeyword(sn)
-                       or any(sn in s for s in self.snake_by_dir.values())
+                       or sn in self.snake_by_dir[dir_]
+                       or (any(sn in s for s in self.snake_by_dir.values()) and not self._case_variant_ok(cand, sn))
                        or sn in SUBDIRS.get(dir_, ())
                        or sn in ("packet", "serialization_error", "protocol_enum_meta")
                        or cand.endswith(("ClientPacket", "ServerPacket")))
@@ -151,6 +167,11 @@ class _Gen:
             self.snake_by_dir[dir_].add(spec.pascal_to_snake(cand))
             return cand
         raise RuntimeError("name generation failed")
+
+    def _case_variant_ok(self, cand, sn):
+        """Same module stem in another directory is fine when the class names differ (NpcInfo in net/,
+        NPCInfo in pub/): the generated modules live in different packages."""
+        return all(spec.pascal_to_snake(t) != sn or t != cand for t in self.type_names)
 
     def refresh(self):
         self.an = spec.Analysis(self.tree)
@@ -191,8 +212,8 @@ class _Gen:
         return d
 
     # -- bodies ----------------------------------------------------------------
-    def gen_body(self, dir_, lex=False, reached_optional=False, depth=0, max_n=6, is_case=False):
-        ctx = {"dir": dir_, "lex": lex, "names": set(), "opt": reached_optional, "depth": depth,
+    def gen_body(self, dir_, lex=False, reached_optional=False, depth=0, max_n=6, is_case=False, outer_names=None):
+        ctx = {"dir": dir_, "lex": lex, "names": _Names(outer_names), "opt": reached_optional, "depth": depth,
                "switchable": [], "switched": set(), "fields": {}, "dummy": False, "is_case": is_case,
                "parent_opt": reached_optional}
         n = self.draw(st.integers(0, max_n))
@@ -232,6 +253,8 @@ class _Gen:
         alpha = HARD_TEXT_SAFE
         if self.f["hardcoded_special_chars"] and self.boolean(0.2):
             alpha = HARD_TEXT_SAFE + '"\\'
+        if self.boolean(0.2):
+            alpha = alpha + "\u00ff\u00ff\u00e9\u20ac\u0178\u0416\U0001F600"
         if n is None:
             n = self.draw(st.integers(1, 6))
         t = self.draw(st.text(alphabet=alpha, min_size=n, max_size=n))
@@ -549,7 +572,8 @@ class _Gen:
                     c["body"] = []
                 else:
                     c["body"], sub = self.gen_body(ctx["dir"], lex=ctx["lex"], reached_optional=popt,
-                                                   depth=ctx["depth"] + 1, max_n=self.size["case_n"], is_case=True)
+                                                   depth=ctx["depth"] + 1, max_n=self.size["case_n"], is_case=True,
+                                                   outer_names=set(ctx["names"]))
                     c["_opt"] = sub["opt"]
                     c["_dummy"] = sub["dummy"]
             cm = self.comment()
